@@ -25,10 +25,12 @@ func c03I(x int64) sdkmath.Int { return sdkmath.NewInt(x) }
 // repaired prefix scan (fix F1) and at boundary heights.
 func c03Directed(w *c03World, rng *rand.Rand, start c03Start, startWith c03StartWith) []*c03Runner {
 	var out []*c03Runner
-	// (0) operator 2 opts into the dogfood AVS with a consensus key and opts out again in the same epoch (the key never
-	// becomes active): from then on every undelegation from it panics in the dogfood hook ("key is nil") and is rejected.
+	// (0) regression scenario for the repaired opt-out-before-activation defect (fix commits e858c23, 34b4652, bf5df54):
+	// operator 2 opts into the dogfood AVS with a consensus key and opts out again in the same epoch (the key never becomes
+	// active). Before the repair every later undelegation from it panicked in the dogfood hook ("key is nil"); now the
+	// operator is a plain one: the undelegation must be accepted (mon_accept) and no hold is placed (correspondence).
 	{
-		r := startWith(3, []string{"kf-C03-optout-before-activation"}, func(ctx sdk.Context) []string {
+		r := startWith(3, []string{"regress-C03-optout-before-activation"}, func(ctx sdk.Context) []string {
 			app := w.env.App
 			_, self := DetEthKey("selfstaker", 0)
 			must := func(err error) {
@@ -44,23 +46,6 @@ func c03Directed(w *c03World, rng *rand.Rand, start c03Start, startWith c03Start
 			_, ck := DetConsKey("cons-optout", 0)
 			must(app.OperatorKeeper.OptInWithConsKey(ctx, w.ops[2], w.avs, ck))
 			must(app.OperatorKeeper.OptOut(ctx, w.ops[2], w.avs))
-			// dogfood status of operator 2 as the tree at hand exhibits it: probe (in a discarded cache context) whether
-			// the AfterUndelegationStarted hook panics for it. On the unrepaired tree it does (entry "!op"); once the
-			// opt-out-before-activation repair is applied the operator is a plain one and this scenario must simply pass.
-			probe, _ := ctx.CacheContext()
-			panics := false
-			func() {
-				defer func() {
-					if p := recover(); p != nil {
-						panics = true
-					}
-				}()
-				_ = app.DelegationKeeper.UndelegateFrom(probe, delegationtypes.NewDelegationOrUndelegationParams(101, assetstypes.UndelegateFrom,
-					w.assets[0], w.ops[2], self.Bytes(), sdkmath.NewInt(1_000_000), 2, common.BigToHash(big.NewInt(0x6ffe))))
-			}()
-			if panics {
-				return []string{"!" + w.opStrs[2]}
-			}
 			return nil
 		})
 		r.deposit(0, 0, c03I(1000), false)
@@ -131,6 +116,24 @@ func c03Directed(w *c03World, rng *rand.Rand, start c03Start, startWith c03Start
 		r.delegate(2, 0, 2, c03I(2))
 		r.undelegate(2, 0, 2, r.position(2, 0, 2), r.nextNonce(), r.newTx())
 		r.endBlock()
+		out = append(out, r)
+	}
+	// (3c) a native-restaking balance decrease that eats the withdrawable balance, the whole first pending undelegation and
+	// part of the second one, then one that reaches the delegated shares
+	{
+		r := start(6, nil)
+		r.deposit(3, 1, c03I(10_000), false)
+		r.delegate(3, 1, 2, c03I(6_000))
+		r.delegate(3, 1, 1, c03I(2_000))
+		r.undelegate(3, 1, 2, c03I(1_000), r.nextNonce(), r.newTx())
+		r.undelegate(3, 1, 2, c03I(700), r.nextNonce(), r.newTx())
+		r.undelegate(3, 1, 1, c03I(500), r.nextNonce(), r.newTx())
+		r.nstBalance(3, 1, c03I(-(2_000 + 1_000 + 300))) // withdrawable 2000, first record 1000, 300 of the second
+		r.nstBalance(3, 1, c03I(250))
+		r.nstBalance(3, 1, c03I(-(250 + 400 + 500 + 1_234))) // through the rest of the records into the shares
+		for i := 0; i < 12; i++ {
+			r.endBlock()
+		}
 		out = append(out, r)
 	}
 	// (4..) repaired prefix scan: at height h a genesis-loaded record completes at a height whose hex starts with hex(h)
@@ -224,6 +227,21 @@ func c03Random(w *c03World, rng *rand.Rand, start c03Start, suite string) *c03Ru
 				r.holdOp(rks[rng.Intn(len(rks))], rng.Intn(3) == 0)
 			} else {
 				r.holdOp("no-such-record", false)
+			}
+		case x < 84:
+			// native-restaking balance adjustment: mostly decreases sized around the three layers it eats through
+			// (withdrawable, pending undelegations, delegated shares)
+			wd := r.withdrawable(st, as)
+			switch rng.Intn(8) {
+			case 0:
+				r.nstBalance(st, as, c03Amount(rng, c03I(int64(rng.Intn(10_000))))) // capped at the deficit inside nstBalance
+			case 1:
+				r.nstBalance(st, as, c03Amount(rng, wd).Neg())
+			case 2, 3, 4:
+				// ends inside the pending undelegations
+				r.nstBalance(st, as, wd.Add(c03Amount(rng, r.pendingOf(st, as))).Neg())
+			default:
+				r.nstBalance(st, as, wd.Add(r.pendingOf(st, as)).Add(c03Amount(rng, r.position(st, as, op))).Neg())
 			}
 		default:
 			nb := 1
